@@ -56,8 +56,12 @@ TSilentServer == /\ Ev("lv.silentserver") /\ Keep
                  /\ bad' = bad
                     \cup (IF E.client_closed_ms >= 0 /\ E.client_closed_ms <= E.T_ms + SlackMs + 1000 THEN {} ELSE {<<"client did not drop a silent server within timeout + slack", l>>})
                     \cup (IF E.relogin_ms >= 0 /\ E.relogin_ms <= E.T_ms + SlackMs + 3000 THEN {} ELSE {<<"client did not log in again after dropping a silent server", l>>})
+\* Liveness.AttemptSwallowed / LoginDeadline: a login that the peer leaves unanswered is given up after the login deadline and tried again
+TLoginSwallowed == /\ Ev("lv.loginswallowed") /\ Keep
+                   /\ Flag(E.relogin_ms >= 0 /\ E.relogin_ms <= E.deadline_ms + 5000 + SlackMs,
+                           "client never gave up a login exchange that the peer left unanswered (no new attempt within the login deadline + back-off)")
 TNote == Ev("drv.note") /\ Keep /\ bad' = bad \cup {<<"scenario could not run", l>>}
-TNext == TReset \/ TBackoff \/ TSilent \/ THealthy \/ TInvalid \/ TRestart \/ TSilentServer \/ TNote
+TNext == TLoginSwallowed \/ TReset \/ TBackoff \/ TSilent \/ THealthy \/ TInvalid \/ TRestart \/ TSilentServer \/ TNote
 TSpec == TInit /\ [][TNext]_<<vars, l, bad>>
 NoMismatch == bad = {}
 HWM == TLCSet(1, IF TLCGet(1) < l THEN l ELSE TLCGet(1))
